@@ -15,6 +15,10 @@ EXTENDS Integers, Sequences, FiniteSets, TLC, Json, IOUtils
 
 Data == JsonDeserialize(IOEnv.TRACE_FILE)
 Tr == Data.traces
+(* Two levels (harness/parallel.py): the per-call relation between consecutive projections (ActionOK, the actions of Sector.tla: *)
+(* direct-sum / product bond dimensions, boundary charges of results, nothing else touched) describes the code; C02 itself is   *)
+(* StateOK in every state plus the boundary charges of non-zero states under in-place algorithms (boundary_fixed).              *)
+Strict == IF "strict" \in DOMAIN Data THEN Data.strict ELSE TRUE
 VARIABLES tid, l, known,
           st            \* Sector!st: id -> projection [cls, q0, qL, zero, dims] after the previous call
 tvars == <<tid, l, known, st>>
@@ -64,7 +68,7 @@ ActionOK ==
             /\ New[r].q0 = QSum(st[ops[1]].q0, st[ops[2]].q0) /\ New[r].qL = QSum(st[ops[1]].qL, st[ops[2]].qL)
             /\ New[r].dims = [k \in DOMAIN st[ops[1]].dims |-> st[ops[1]].dims[k] * st[ops[2]].dims[k]]   \* bonds multiply
       [] OTHER -> FALSE
-OpOK == StateOK /\ PoolOK /\ Rec.boundary_fixed /\ ActionOK
+OpOK == StateOK /\ PoolOK /\ Rec.boundary_fixed /\ (Strict => ActionOK)
 
 TOp == /\ HasRec /\ Rec.ev = "op" /\ (OpOK = TRUE)
        /\ known' = Ids /\ st' = New /\ l' = l + 1 /\ tid' = tid
@@ -80,7 +84,7 @@ Diagnose ==
          ELSE IF ~Rec.objs[Bad].kinds_ok THEN "after " \o Rec.name \o ": quantum numbers are not stored as integer sequences"
          ELSE "after " \o Rec.name \o ": tensor shapes inconsistent")
     ELSE IF ~Rec.boundary_fixed THEN "after " \o Rec.name \o ": total quantum numbers of a non-zero state changed"
-    ELSE IF PoolOK /\ ~ActionOK THEN "after " \o Rec.name \o ": the projections before / after the call are not related by the " \o Rec.rule \o " action of Sector.tla"
+    ELSE IF PoolOK /\ ~ActionOK THEN "spec: after " \o Rec.name \o ": the projections before / after the call are not related by the " \o Rec.rule \o " action of Sector.tla"
     ELSE "after " \o Rec.name \o ": an object disappeared from / appeared in the pool unexpectedly"
 TReject == /\ HasRec /\ (IF Rec.ev # "op" THEN TRUE ELSE (OpOK = FALSE))        \* IF: TLC evaluates both sides of an action-level \/
            /\ PrintT(<<"REJECT", tid, l, Rec.ev, Diagnose>>)
